@@ -259,6 +259,18 @@ func (r *Rec) Fail(kind string, c interface{}, key, msg string) string {
 	return p
 }
 
+// SetCurrent records the case that is about to be evaluated in a side file, so that the driver can attribute a
+// crash of the whole process (a panic in a worker goroutine of the code under test cannot be recovered) to it.
+func (r *Rec) SetCurrent(kind string, c interface{}) {
+	if r.cfg.OutDir == "" || r.cfg.Replay != "" {
+		return
+	}
+	b, _ := json.Marshal(c)
+	rf := ReplayFile{Property: r.cfg.ID, Kind: kind, Msg: "the process crashed while this case was being evaluated", Case: b}
+	out, _ := json.Marshal(rf)
+	os.WriteFile(filepath.Join(r.cfg.OutDir, fmt.Sprintf("current-%d.json", r.cfg.Shard)), out, 0o644)
+}
+
 // NViolations returns the number of recorded violations.
 func (r *Rec) NViolations() int { r.mu.Lock(); defer r.mu.Unlock(); return len(r.Violations) }
 
